@@ -34,7 +34,7 @@ var texts = []struct{ s, cls string }{
 
 // coder-form script generators by class
 var toClasses = []string{"to-one", "to-zero", "to-two", "to-open", "to-close-extra", "to-popbelow", "to-unsup-before", "to-unsup-after",
-	"to-err-mid", "to-panic", "to-reset", "to-invalid-utf8", "to-dup-names", "to-bad-value", "to-nested", "to-random"}
+	"to-err-mid", "to-panic", "to-reset", "to-invalid-utf8", "to-dup-names", "to-bad-value", "to-nested", "to-nested-fail", "to-random"}
 
 func genToScript(r *rand.Rand, class string) string {
 	strict := r.IntN(2) == 0
@@ -74,6 +74,14 @@ func genToScript(r *rand.Rand, class string) string {
 		}
 	case "to-nested":
 		ops = pick([]string{"Nm"}, []string{"Nl"}, []string{"Nd"}, []string{"Nt"}, []string{"Np"}, []string{"[", "Nm", "Nt", "]"}, []string{"{", "Sk", "Nd", "}"}, []string{"Nt", "Nt"})
+	case "to-nested-fail":
+		// a nested MarshalEncode that fails part-way (inside an array or object it opened), its error ignored,
+		// and the rest completed by hand - with names the failed call had already written
+		strict = false
+		ops = pick([]string{"Nf", "]", "SList", "Ix", "}"}, []string{"Nf", "Sx", "]", "SList", "n", "}"},
+			[]string{"Ng", "n", "Sz", "n", "}", "]", "Sk", "n", "}"}, []string{"Ng", "n", "}", "]", "Sk", "n", "}"},
+			[]string{"Nh", "n", "Sx", "n", "}", "SA", "Ix", "}"}, []string{"Nh", "n", "}", "SM", "n", "}"},
+			[]string{"[", "Nf", "]", "SList", "Ix", "}", "]"}, []string{"{", "Sq", "Nh", "n", "}", "SA", "n", "}", "Sq", "n", "}"})
 	case "to-random":
 		toks := []string{"{", "}", "[", "]", "n", "t", "Sa", "Sb", "Sa", "Ix", "S\xff", "S", "F", "A", "R", "Nm"}
 		for i, n := 0, r.IntN(8); i < n; i++ {
@@ -120,7 +128,7 @@ var leafTypes = []reflect.Type{reflect.TypeFor[int](), tString, reflect.TypeFor[
 
 const bsl = "\\" // one backslash
 
-var timeFormats = []string{"RFC3339", "RFC3339Nano", "unix", "unixnano", "RFC1123", "Kitchen", "DateOnly", "2006-01-02T15\"04", "Jan _2 " + bsl + " <&> 15h", "2006\t01", "2006 \u2028 01", "bogus"}
+var timeFormats = []string{"RFC3339", "RFC3339Nano", "unix", "unixnano", "RFC1123", "Kitchen", "DateOnly", "UnixDate", "RFC822", "RFC850", "Mon MST 2006", "MST", "2006-01-02T15\"04", "Jan _2 " + bsl + " <&> 15h", "2006\t01", "2006 \u2028 01", "bogus"}
 var durFormats = []string{"units", "sec", "milli", "nano", "iso8601", "bogus"}
 
 // quoteTagOption renders s as a single-quoted struct tag option (backslash escapes).
@@ -396,8 +404,13 @@ func (g *gctx) genValue(t reflect.Type, depth int) reflect.Value {
 	}
 	switch t {
 	case tTime:
-		v.Set(reflect.ValueOf([]time.Time{{}, time.Date(2000, 1, 2, 3, 4, 5, 678000000, time.UTC), time.Date(12345, 1, 1, 0, 0, 0, 0, time.UTC),
-			time.Date(1969, 12, 31, 23, 59, 59, 999999999, time.FixedZone("", -3600*7-60*30))}[r.IntN(4)]))
+		ts := []time.Time{{}, time.Date(2000, 1, 2, 3, 4, 5, 678000000, time.UTC), time.Date(12345, 1, 1, 0, 0, 0, 0, time.UTC),
+			time.Date(1969, 12, 31, 23, 59, 59, 999999999, time.FixedZone("", -3600*7-60*30))}
+		// zone names are user data that layouts with MST copy into the output
+		for _, zn := range []string{`A"B`, "A" + bsl, "A\x01B", "A\xffB", "<&>", "Z\u2028", `","x":"`, "\xed\xa0\x80"} {
+			ts = append(ts, time.Date(2024, 5, 6, 7, 8, 9, 0, time.FixedZone(zn, 3600)))
+		}
+		v.Set(reflect.ValueOf(ts[r.IntN(len(ts))]))
 		return v
 	case tDuration:
 		v.SetInt([]int64{0, 1, -1, 1500000000, 3723000000000, math.MinInt64}[r.IntN(6)])
